@@ -14,6 +14,34 @@ NOTE = (
 
 # id -> (technique, level text, design ref, extra note)
 CLAIMED = {
+    "C01": (
+        "Hypothesis construct-by-inverse round trip: generate format + meaning, spell it from the grammar, parse, compare with an independent expected-Args model",
+        "Generated formats x meanings x spellings are parsed (strict/lenient, argv/string) and all four result maps, access by "
+        "long/short/position and the set-predicates are compared with a model computed from the meaning alone.",
+        "DESIGN.md 4 C01",
+        "",
+    ),
+    "C02": (
+        "bounded-exhaustive token soup x small formats (exception-class validity predicate, strict/lenient differential) + Hypothesis single-fault mutants of valid lines with the fault's documented error class",
+        "Every token sequence up to length 3 (quick) / 4 (thorough) over an adversarial 24-token alphabet against 63 small formats, "
+        "strict and lenient; plus generated valid lines with one injected fault must raise exactly the documented class.",
+        "DESIGN.md 4 C02",
+        "",
+    ),
+    "C05": (
+        "Hypothesis operation histories on one parser instance, differential against a fresh parser per step, input snapshots",
+        "Histories of valid / faulty / soup parse requests over 1-2 formats on one DefaultArgsParser, every step compared with a "
+        "fresh parser and with snapshots of argv, raw args and format listings.",
+        "DESIGN.md 4 C05",
+        "",
+    ),
+    "C12": (
+        "bounded-exhaustive operation sequences + Hypothesis op lists against a list-based reference model of the dispatcher",
+        "All 11^5 (quick) / 11^7 (thorough) register/dispatch sequences, each with and without queries after every step, plus "
+        "random sequences up to 40 ops; invocation order, stop-propagation, isolation and all queries compared with the model.",
+        "DESIGN.md 4 C12",
+        "",
+    ),
     "C08": (
         "bounded-exhaustive string enumeration + Hypothesis round-trip (quote/unquote inverse) + differential string-vs-argv",
         "Every string up to length 5 (quick) / 7 (thorough) over the tokenizer's special characters is tokenised "
